@@ -61,7 +61,9 @@ func (m *URNsModifier) Apply(eng flows.Engine, env envs.Environment, sa flows.Se
 			log(events.NewErrorf("'%s' is not valid URN", urn))
 		} else {
 			if m.Modification == URNsAppend || m.Modification == URNsSet {
-				contact.AddURN(urn, nil)
+				// channel affinity travels in the URN's channel query: keep the pointer in step with it, as reading the
+				// contact back from its marshalled form would (a nil pointer silently changed the preferred channel)
+				contact.AddURN(urn, channelOf(sa, urn))
 			} else {
 				contact.RemoveURN(urn)
 			}
@@ -74,6 +76,15 @@ func (m *URNsModifier) Apply(eng flows.Engine, env envs.Environment, sa flows.Se
 		return true
 	}
 	return false
+}
+
+// returns the channel a raw URN names in its channel query, if the assets have it
+func channelOf(sa flows.SessionAssets, urn urns.URN) *flows.Channel {
+	parsed, err := flows.ParseRawURN(sa.Channels(), urn, assets.IgnoreMissing)
+	if err != nil {
+		return nil
+	}
+	return parsed.Channel()
 }
 
 var _ flows.Modifier = (*URNsModifier)(nil)
